@@ -7,7 +7,7 @@ C15 — types built from a JSON Schema (`utype/specs/json_schema/parser.py`, as 
                     combinations, `Schema` subclasses with their fields and options).
 * `parse res s`     `JsonSchemaParser(s)()`  — `parse_type / parse_array / parse_object / parse_field /
                     get_constraints / infer_type / get_attname / annotate`, branch for branch, with the
-                    declaration checks of `Rule` (`Constraints.validate_constraints`, rule.py:757-821) that make a
+                    declaration checks of `Rule` (`Constraints.validate_constraints`, rule.py:777-841) that make a
                     build raise `ConfigError`.  `none` = the build raises.
 * `conforms R T j`  the *contract* of a built type: what the JSON form `j` of a value returned by a
                     successful parse at `T` looks like (C01/C05's conclusion, JSON side).  It is the hypothesis
@@ -132,7 +132,7 @@ def Fld.deps : Fld → List String | .mk _ _ _ _ d => d
 /-- `Not(Any)`: accepts nothing -/
 def Ty.never : Ty := .logic .neg [.any]
 
-/-! ## `LogicalType.combine` (rule.py:236-268) -/
+/-! ## `LogicalType.combine` (rule.py:241-272) -/
 
 /-- `arg in __args` compares classes by identity: only builtin classes and `Rule` itself can repeat -/
 def sameObj : Ty → Ty → Bool
@@ -206,7 +206,7 @@ def isFalse : Json → Bool
   | .bool false => true
   | _ => false
 
-/-- `valid_bounds` (rule.py:608-716) on a numeric origin; `true` = accepted -/
+/-- `valid_bounds` (rule.py:610-725) on a numeric origin; `true` = accepted -/
 def checkBoundsCore (p : Prim) (gt ge lt le : Option Num) : Bool :=
   if gt.isSome && ge.isSome then false                       -- "gt/ge cannot assign together"
   else if lt.isSome && le.isSome then false                  -- "lt/le cannot assign together"
@@ -232,7 +232,7 @@ def checkBounds (p : Prim) (cons : Cons) : Bool :=
   checkBoundsCore p ((cons.lookup "gt").bind numOf) ((cons.lookup "ge").bind numOf)
     ((cons.lookup "lt").bind numOf) ((cons.lookup "le").bind numOf)
 
-/-- `valid_length` (rule.py:542-598); `true` = accepted -/
+/-- `valid_length` (rule.py:546-608); `true` = accepted -/
 def checkLengthCore (mn mx : Option Num) : Bool :=
   (match mn with
    | some a => isPyInt a && decide (0 ≤ a.mant)
@@ -247,7 +247,7 @@ def checkLengthCore (mn mx : Option Num) : Bool :=
 def checkLength (cons : Cons) : Bool :=
   checkLengthCore ((cons.lookup "min_length").bind numOf) ((cons.lookup "max_length").bind numOf)
 
-/-- `isinstance(const, origin)` or an exact-tolerance pair (rule.py:763-772, `TYPE_EXACT_TOLERANCE`) -/
+/-- `isinstance(const, origin)` or an exact-tolerance pair (rule.py:778-792, `TYPE_EXACT_TOLERANCE`) -/
 def constFits (p : Prim) (v : Json) : Bool :=
   match p, v with
   | .null, .null => true
@@ -273,7 +273,7 @@ def originOf : Ty → Option Prim
 `validate_constraints`; `none` = `ConfigError` -/
 def mkRule (t : Ty) (cons : Cons) : Option Ty :=
   match t with
-  | .any => some .anyRule                                     -- rule.py:1331-1337: constraints on Any are dropped with a warning
+  | .any => some .anyRule                                     -- rule.py:1355-1361: constraints on Any are dropped with a warning
   | _ =>
     if cons.isEmpty then some t
     else match cons.lookup "const" with
@@ -423,7 +423,7 @@ def typeOfValue : Json → Prim
 /-- `min(v, n)`; the existing value wins a tie -/
 def minJ (v : Json) (n : Num) : Json :=
   match v with
-  | .num m => if m.lt n then .num m else .num n
+  | .num m => if n.lt m then .num n else .num m
   | _ => .num n
 
 /-- `constraints['max_length'] = min(constraints.get('max_length', n), n)` (a dict has one entry per name) -/
@@ -634,7 +634,7 @@ def emptyEnum (kvs : Obj) : Bool :=
 
 /-- parse_type of a schema object whose members have been parsed -/
 def assemble (N : Names) (kvs : Obj) (subs : Subs) : Option Ty :=
-  if emptyEnum kvs then some Ty.never else      -- fix C15-9: an empty enum admits nothing
+  if emptyEnum kvs then some Ty.never else      -- fix C15-9: an empty enum accepts nothing
   match lookup "type" kvs with
   | some (.arr ts) =>
     -- fix C15-6: the same schema with any one of the types
@@ -682,7 +682,7 @@ end
 /-! ## the contract of a built type on the JSON form of what it returns -/
 
 structure Rx where
-  full : String → String → Bool          -- `re.fullmatch(p, s)` (Constraints.regex, rule.py:996)
+  full : String → String → Bool          -- `re.fullmatch(p, s)` (Constraints.regex, rule.py:1008-1011)
   search : String → String → Bool        -- JSON Schema `pattern`
 
 def sizeOf? : Json → Option Nat
@@ -1061,7 +1061,7 @@ end
 def oneOfOverlap (C : Ctx) (s j : Json) : Bool := !oneOfAtMost C s j
 
 /-! `degenerate-constraints`, exactly: some `Rule` the parser declares for a schema object it reaches is refused by
-`Rule`'s declaration checks (`checkBoundsCore`, `checkLengthCore`, `constFits`: rule.py:542-716, 757-772).
+`Rule`'s declaration checks (`checkBoundsCore`, `checkLengthCore`, `constFits`: rule.py:546-725, 777-792).
 `C15_builds_iff` proves that this — and nothing else — makes a build of a fragment schema raise. -/
 
 /-- a member, whatever it builds to -/
@@ -1187,13 +1187,64 @@ def stripRule : Ty → Ty
   | .rule b _ => stripRule b
   | t => t
 
+mutual
+/-- the class of one listed value, with the classes of its items / members -/
+def tyOfJson (v : Json) : Ty :=
+  match v with
+  | .null => .prim .null
+  | .bool _ => .prim .bool
+  | .num n => if isPyInt n then .prim .int else .prim .float
+  | .str _ => .prim .str
+  | .arr xs => .tup (tysOfJson xs) .reject .any
+  | .obj o => .data (fldsOfJson o) .reject .any none none
+termination_by structural v
+def tysOfJson (xs : List Json) : List Ty :=
+  match xs with
+  | [] => []
+  | x :: rest => tyOfJson x :: tysOfJson rest
+termination_by structural xs
+def fldsOfJson (o : List (String × Json)) : List Fld :=
+  match o with
+  | [] => []
+  | (n, x) :: rest => .mk n n (tyOfJson x) true [] :: fldsOfJson rest
+termination_by structural o
+end
+
+/-- the values a `const` / `enum` rule lists -/
+def listedValues (cons : Cons) : Option (List Json) :=
+  match cons.lookup "const" with
+  | some v => some [v]
+  | none => (match cons.lookup "enum" with
+    | some (.arr vs) => some vs
+    | _ => none)
+
+def isContainer : Ty → Bool
+  | .prim .list => true
+  | .prim .tuple => true
+  | .prim .dict => true
+  | .arr _ => true
+  | .tup _ _ _ => true
+  | .map _ => true
+  | .data _ _ _ _ _ => true
+  | _ => false
+
+/-- what a conjunct says about the places inside a value: a `const` / `enum` rule over a container says what its
+listed values hold there, any other rule what its base says -/
+def shapeOf : Ty → Ty
+  | .rule b cons =>
+    if isContainer (stripRule b) then (match listedValues cons with
+      | some vs => .logic .any (tysOfJson vs)
+      | none => shapeOf b)
+    else shapeOf b
+  | t => t
+
 /-- two conjuncts of one `&` that can hold values of different JSON kinds at the same place (the place is followed
-through items, values and members of the same name — a member that is a field of one class and an additional
+through items, values, members of the same name and the values a `const` / `enum` over a container lists — a member that is a field of one class and an additional
 member of the other is typed by the field there and by the additional type here; `fuel` bounds the descent) -/
 def mixedPair : Nat → Ty → Ty → Bool
   | 0, _, _ => false
   | fuel + 1, a, b =>
-    match stripRule a, stripRule b with
+    match shapeOf a, shapeOf b with
     | .arr xs, .arr ys => xs.any fun x => ys.any fun y => mixedPair fuel x y
     | .arr xs, .tup ys _ addTy => xs.any fun x => (ys.any fun y => mixedPair fuel x y) || mixedPair fuel x addTy
     | .tup xs _ addTy, .arr ys => ys.any fun y => (xs.any fun x => mixedPair fuel x y) || mixedPair fuel addTy y
@@ -1429,7 +1480,7 @@ def memberNameClash (N : Names) (t : Ty) (input : Json) : Bool :=
   hasMemberIn (N.reserved ++ renamedAttrs t) input
 
 mutual
-/-- `max-properties-zero`: `Options(max_params=0)` is read as "no limit" (base.py:361 `if options.max_params:`) -/
+/-- `max-properties-zero`: `Options(max_params=0)` is read as "no limit" (base.py:375 `if options.max_params:`) -/
 def maxPropsZero (t : Ty) : Bool :=
   match t with
   | .rule b _ => maxPropsZero b
